@@ -98,10 +98,12 @@ func zzH10_divlaw() {
 	zzReach("end")
 }
 
-// H10.3c: Binary(//) and Binary(%) reject a zero divisor and otherwise agree with Div/Mod.
+// H10.3c: Binary(//) and Binary(%) reject a zero divisor and otherwise succeed, for a
+// symbolic dividend and divisors from a small set (symbolic divisors are covered by zzH10_divmod).
 func zzH10_binaryDivZero() {
-	xv, yv := zzI64("x"), zzI64("y")
-	x, y := MakeInt64(xv), MakeInt64(yv)
+	x, _ := zzSymInt("x", 40)
+	yv := []int64{0, 3, -3, 1 << 40}[zzChoice("y", 4)]
+	y := MakeInt64(yv)
 	op := []syntax.Token{syntax.SLASHSLASH, syntax.PERCENT}[zzChoice("op", 2)]
 	var v Value
 	var err error
